@@ -322,6 +322,11 @@ class SourceCatalog:
         self._error = self._validate_array(error, 'error')
         self._mask = self._validate_array(mask, 'mask')
         self._background = self._validate_array(background, 'background')
+        if (self._background is not None
+                and self._background.dtype.kind != 'f'):
+            # the background is interpolated (and set to NaN) at the
+            # source centroids, which an integer array cannot represent
+            self._background = self._background.astype(float)
         self.wcs = wcs
         self.localbkg_width = self._validate_localbkg_width(localbkg_width)
         self.apermask_method = self._validate_apermask_method(apermask_method)
